@@ -546,3 +546,25 @@ package gojq
 //@   ensures old(c.customFuncs != nil && (name in c.customFuncs)) ==> c.customFuncs[name].argcount == bitor(argcount, old(c.customFuncs[name].argcount))
 //@   ensures old(c.customFuncs != nil && (name in c.customFuncs)) ==> forall k :: 0 <= k && k <= 62 ==>
 //@       (bitor_fact(argcount, old(c.customFuncs[name].argcount), k) ==> (bit(c.customFuncs[name].argcount, k) == (bit(argcount, k) || bit(old(c.customFuncs[name].argcount), k))))
+
+// ---------------------------------------------------------------------------------------
+// C05 / C06 / C02: ownership. owned(x) is ghost: the allocator has recorded the object. The three
+// allocator methods are trusted (their bodies go through reflect pointers): allocated answers from
+// what makeObject/makeArray recorded. Known limit: ownership is by array identity, the capacity
+// window of a prefix sub-slice is not distinguished (DESIGN §4, D3).
+// ---------------------------------------------------------------------------------------
+
+//@ trusted (a allocator) allocated(v any) (r bool)
+//@   ensures r ==> owned(v)
+
+//@ trusted (a allocator) makeObject(l int) (m map[string]any)
+//@   modifies GH_owned
+//@   ensures m != nil && fresh(m) && len(m) == 0 && (a != nil ==> owned(m))
+//@   ensures forall r int :: {ownedref(r)} r <= oldalloc() ==> ownedref(r) == old(ownedref(r))
+
+//@ trusted (a allocator) makeArray(l, c int) (s []any)
+//@   requires 0 <= l
+//@   modifies GH_owned
+//@   ensures fresh(s) && len(s) == l && cap(s) == max(l, c) && (a != nil ==> owned(s))
+//@   ensures forall r int :: {ownedref(r)} r <= oldalloc() ==> ownedref(r) == old(ownedref(r))
+//@   ensures forall k :: {s[k]} 0 <= k && k < l ==> s[k] == nil
